@@ -43,6 +43,7 @@ type RDBGenValue struct {
 	TypeCode byte
 	Body     []byte // type byte + serialized value = DUMP payload without its 10-byte footer
 	Offset   int    // offset of the key's first opcode in the file
+	TypeAt   int    // offset of the value type byte
 	End      int    // offset just after the value
 }
 
@@ -127,10 +128,11 @@ func GenRDB(opt RDBFileOpt, keys []RDBKey) (*RDBGen, error) {
 					b = append(b, 0xF9, byte(k.Freq))
 				}
 			}
+			typeAt := len(b)
 			b = append(b, code)
 			b = rdbString(b, k.Key, opt.KeyStr)
 			b = append(b, body...)
-			g.Values = append(g.Values, RDBGenValue{DB: k.DB, Key: k.Key, TypeCode: code, Body: append([]byte{code}, body...), Offset: start, End: len(b)})
+			g.Values = append(g.Values, RDBGenValue{DB: k.DB, Key: k.Key, TypeCode: code, Body: append([]byte{code}, body...), Offset: start, TypeAt: typeAt, End: len(b)})
 		}
 	}
 	b = append(b, 0xFF)
